@@ -92,6 +92,23 @@ def gen(rng, tier):
                       "thr": v_leak + rng.choice([0.5, 1.0]), "times": times,
                       "amps": [rng.choice([0.0, 0.3, 0.8, 1.05, 1.5, 2.5]) for _ in range(n)],
                       "dt": rng.choice([1e-3, 2e-3, 5e-3]), "k": rng.choice([2, 3, 5]), "duration": rng.choice([0.05, 0.1])})
+    # recording grids that COINCIDE with the analytic spike times (constant drive: spikes at multiples of t*; record_dt = t*/m):
+    # a recording instant then falls within an ulp of a threshold crossing
+    grid = [(0.01, 1.0, 0.1, 1.0, 3.27, 1)]
+    for _ in range(150 if tier == "quick" else 1500):
+        tau = rng.choice([0.01, 0.02, 0.005, rng.uniform(0.004, 0.05)])
+        r = rng.choice([1.0, 2.0, 0.5])
+        v_leak = rng.choice([0.0, 0.1, -0.2, 0.25])
+        thr = v_leak + rng.choice([0.5, 1.0, 0.9])
+        i = (thr - v_leak) / r * rng.uniform(1.2, 4.0) + rng.choice([0.0, 0.07])
+        grid.append((tau, r, v_leak, thr, i, rng.choice([1, 1, 2, 3, 4, 7])))
+    for tau, r, v_leak, thr, i, m in grid:
+        vinf = v_leak + r * i
+        if vinf <= thr * 1.01 or vinf <= 0:
+            continue
+        tstar = tau * math.log(vinf / (vinf - thr))        # first crossing from v = 0; after the reset v = thr - thr = 0 again
+        cases.append({"kind": "loop", "tau": tau, "r": r, "v_leak": v_leak, "thr": thr, "times": [0.0], "amps": [i],
+                      "dt": tstar / m, "k": rng.choice([2, 3, 5]), "duration": tstar * rng.choice([4.5, 6.5, 9.5])})
     # the REAL event loop run on an integrate-and-fire neuron with dyadic-rational data (every float operation exact),
     # compared event by event with the Coq model of the loop (Model/EventLoop.v)
     E = 60 if tier == "quick" else 800
@@ -310,6 +327,8 @@ def run_loop(c):
             if t > c["duration"]:
                 break
             key = round(t / (c["dt"] / c["k"]))
+            if any(abs(t - sp) <= 1e-9 * max(abs(sp), 1e-6) for sp in list(a.spikes) + list(b.spikes)):
+                continue      # a record within rounding distance of a spike: which side of the reset it sees is decided by an ulp
             if key in vb and abs(vb[key] - v) > 1e-6 * max(1.0, abs(v)):
                 fail = (f"recorded voltage at t={t} depends on the recording interval: {v} vs {vb[key]} "
                         f"({p}, schedule {c['times']} {c['amps']})")
@@ -344,6 +363,26 @@ def run_cuba(c):
         # step t must still be the state of step t after later steps
         impl2 = C.CubaLIFImplementation(dt, node)
         kept = [impl2.forward(x[t]) for t in range(c["steps"])]
+    if c["steps"] >= 6:
+        # one model object used for two consecutive stretches through the runner, and advanced by forward() before being handed
+        # to the runner: the state carries over (the trajectory is that of the single long run)
+        cut = c["steps"] // 3
+        with quiet():
+            impl3 = C.CubaLIFImplementation(dt, node)
+            o1 = C.run_cuba_reference_model(impl3, x[:cut])
+            o2 = C.run_cuba_reference_model(impl3, x[cut:])
+            impl4 = C.CubaLIFImplementation(dt, node)
+            for t in range(cut):
+                impl4.forward(x[t])
+            o3 = C.run_cuba_reference_model(impl4, x[cut:])
+        for name, first, second in (("two runs of the reference runner on one model object", o1, o2), ("forward() calls followed by the runner", None, o3)):
+            for key in ("spikes", "voltages", "currents"):
+                got = second[key] if first is None else np.concatenate([first[key], second[key]])
+                want = out[key][cut:] if first is None else out[key]
+                if got.shape != want.shape or not np.array_equal(got, want):
+                    return Outcome(None, f"CubaLIF reference model: {name} ({cut} + {c['steps'] - cut} steps) does not continue the trajectory of the "
+                                         f"single {c['steps']}-step run ({key} differ; dt={dt}, n={n})", True,
+                                   ("cuba", c["n"], c["steps"], c["exact"], c["seed"]))
     for t, (z, v, cur) in enumerate(kept):
         if not (np.array_equal(np.asarray(z, dtype=float), out["spikes"][t]) and np.array_equal(np.asarray(v, dtype=float), out["voltages"][t])
                 and np.array_equal(np.asarray(cur, dtype=float), out["currents"][t])):
